@@ -2,7 +2,7 @@
    bookkeeping, tandem sort; the tokenisers and number parsers are exercised by the byte-level
    oracle only — partial). *)
 From Coq Require Import ZArith List Bool Floats.
-From V Require Import F64 F32 Decode DecodeProofs.
+From V Require Import Tables F64 F32 Decode DecodeProofs.
 Import ListNotations.
 Open Scope Z_scope.
 
@@ -43,3 +43,10 @@ Example C06_example :
   tps_words (decode_lines false [mk_tline 100 500 true false; mk_tline 50 400 true false; mk_tline 100 300 true false])
   = [to_bits 50; to_bits 400; to_bits 100; to_bits 300].
 Proof. vm_compute. reflexivity. Qed.
+
+(* time order of mania maps / converts: `sort::osu_legacy` only re-orders simultaneous objects of a
+   slice that was ordered by start time immediately before (its port reads the pivot by index, so on
+   unordered input it would NOT sort); the call sites are re-read from the source on every run *)
+Theorem C06_sort_facts_now : forallb snd Tables.sort_facts = true /\ (3 <= length Tables.sort_facts)%nat.
+Proof. exact tables_sort_facts. Qed.
+Print Assumptions C06_sort_facts_now.
